@@ -809,6 +809,8 @@ def oracle(ctx, fe, h, r, prop):
 # =================================================================================================
 A, AB, ABC, X = (0,), (0, 1), (0, 1, 2), (23,)
 NAMES = [A, AB, ABC, X]
+# every non-empty subset of the lattice, in lattice order (15)
+LATTICE_SUBSETS = [[n for b, n in enumerate(NAMES) if m >> b & 1] for m in range(1, 1 << len(NAMES))]
 PASS = {'v2': 3, 'v1': 1}
 FAILV = {'v2': 0, 'v1': 0}
 
@@ -887,6 +889,61 @@ def targeted(fe):
             + [('nack', A, None, NACK_FORMS[(k + 1) % len(NACK_FORMS)], 60, tie)])
         add('nack-reason-validating', ex(0, A, 0, vm=('def',), fe=fe) + [('data', 0, A, 20, 0)] + ex(1, A, 25, life=300, fe=fe)
             + [('nack', A, None, form, 30, tie), ('vdone', 0, P, 50, 0), ('advance', 500)])
+    # shutdown family: the face shuts down while Interests are pending on every non-empty subset of the name lattice
+    # /a, /a/b, /a/b/c, /x (same, nested and unrelated names; nodes above / between / below already gone): every
+    # pending Interest is cancelled AT the shutdown, whatever else is (or was) in the table; Interests that completed
+    # before keep their outcome, validations in flight finish with their verdict, later packets change nothing
+    for k, S in enumerate(LATTICE_SUBSETS):
+        tie = k % 3
+        rest = [n for n in NAMES if n not in S]
+        # one Interest per name, mixed CanBePrefix, different lifetimes
+        h = []
+        for j, n in enumerate(S):
+            h += ex(j, n, 0, life=200 + 100 * j, cbp=(j + k) % 2 == 1, fe=fe)
+        add('shutdown-lattice', h + [('shutdown', 40, 0), ('advance', 1000)])
+        # the shutdown falls on the deadline of the Interest on the first / the last name of the subset (all tie modes)
+        for pos in (0, len(S) - 1):
+            h = []
+            for j, n in enumerate(S):
+                h += ex(j, n, 0, life=100 if j == pos else 300 + 100 * j, fe=fe)
+            for tmode in (0, 1, 2):
+                add('shutdown-lattice-tie', h + [('shutdown', 100, tmode), ('advance', 1000)])
+        # several Interests per name (plain, CanBePrefix, implicit digest), expressed at different times
+        h = []
+        i = 0
+        for j, n in enumerate(S):
+            for (cbp, dig) in ((False, None), (True, None), (False, 'x')):
+                h += ex(i, n, 5 * i, life=300, cbp=cbp, dig=dig, fe=fe)
+                i += 1
+        add('shutdown-lattice-multi', h + [('shutdown', 100, tie), ('advance', 1000)])
+        # the other names of the lattice were pending too but are gone (Data / Nack / cancel / timeout, rotating) when the
+        # face shuts down: the table has holes above, between and below the pending names
+        h = []
+        for j, n in enumerate(NAMES):
+            h += ex(j, n, 0, life=(20 if n in rest and (NAMES.index(n) + k) % 4 == 3 else 300), fe=fe)
+        for n in rest:
+            j = NAMES.index(n)
+            how = (j + k) % 4
+            if how == 0:
+                h += [('data', j, n, 10 + j, 0)]
+            elif how == 1:
+                h += [('nack', n, None, NACK_FORMS[(j + k) % len(NACK_FORMS)], 10 + j, 0)]
+            elif how == 2:
+                h += [('cancel', j, 10 + j, 0)]
+        add('shutdown-lattice-holes', h + [('shutdown', 40, tie), ('advance', 1000)])
+        # the other names are validating (their Data arrived, the validator has not answered) at the shutdown; the
+        # verdicts come afterwards; packets for the cancelled names arrive after the shutdown
+        h = []
+        for j, n in enumerate(NAMES):
+            h += ex(j, n, 0, life=300, vm=(('def',) if n in rest else None), fe=fe)
+        for n in rest:
+            h += [('data', NAMES.index(n), n, 10 + NAMES.index(n), 0)]
+        h += [('shutdown', 40, tie)]
+        for n in rest:
+            h += [('vdone', NAMES.index(n), P if (NAMES.index(n) + k) % 2 == 0 else F, 50, 0)]
+        for j, n in enumerate(S):
+            h += [('data', 10 + j, n, 60 + j, 0), ('nack', n, None, 150, 70 + j, 0)]
+        add('shutdown-lattice-validating', h + [('advance', 1000)])
     # every verdict
     for v in verdicts(fe):
         add('verdict-imm', ex(0, A, 0, vm=('imm', v), fe=fe) + [('data', 0, A, 20, 0)])
@@ -998,6 +1055,11 @@ def rand_history(rng, fe, n_int=None, n_ev=None, wf=True):
             shut = True
         else:
             h.append(('advance', t))
+    if not shut and rng.random() < 0.2:
+        # the face shuts down with whatever is pending (often several nested names) still in the table
+        if deadlines and rng.random() < 0.3:
+            t = max(t, rng.choice(deadlines))
+        h.append(('shutdown', t, rng.choice((0, 0, 1, 2))))
     if rng.random() < 0.5:
         h.append(('advance', t + 500))
     # implicit digests refer to data ids: make sure every referenced id has a name
